@@ -575,6 +575,7 @@ def run(chk):
     _intenc_rule(chk, prog)
     _lookup_rule(chk, prog)
     _asmrange_rule(chk, prog)
+    _framefresh_rule(chk, prog)
 
 
 def _asmrange_rule(chk, prog):
@@ -602,3 +603,49 @@ def _asmrange_rule(chk, prog):
         chk.violation(rule, "asm.c", "doarg", "signed-min", mins[0].loc,
                       "doarg computes the smallest accepted signed operand as `%s`, not -max - 1: the most negative value the field can "
                       "hold (and that disasm prints, e.g. -128 for a one-byte immediate) is rejected as `too small`" % signed_arm.text()[:40])
+
+
+def _framefresh_rule(chk, prog):
+    """unmarshal_one_fiber rebuilds one stack frame per iteration of its frame loop.  Everything it stores into the frame
+    header must have been produced for THIS frame: a local that is only conditionally set inside the loop (the closure
+    environment, present only when the frame's flags say so) has to start each iteration from its neutral value, or a
+    frame without environment inherits the environment of the frame handled before it."""
+    rule = "C09-FRAMEFRESH"
+    chk.rule(rule, "each value stored into a rebuilt stack-frame header is (re)initialised in the same iteration of the frame loop")
+    fn = next((f for f in prog.all_funcs() if f.name == "unmarshal_one_fiber"), None)
+    if fn is None:
+        raise AnalysisBroken("unmarshal_one_fiber not found")
+    chk.analysed(fn)
+    n = 0
+    for lp in fn.nodes:
+        if lp.k not in ("while", "for", "do"):
+            continue
+        stores = [x for x in lp.walk() if x.k == "asg" and x.op == "=" and x.kids[0].k == "mem" and x.kids[0].rec == "JanetStackFrame"]
+        if not stores:
+            continue
+        body = lp.kids[-1] if lp.k != "do" else lp.kids[0]
+        top = list(body.kids) if body is not None and body.k == "compound" else [body]
+        for st in stores:
+            for v in [y for y in st.kids[1].walk() if y.k == "ref" and y.d.get("d") == "var"]:
+                n += 1
+                chk.instance(rule)
+                fresh = False
+                for stmt in top:
+                    if stmt is None:
+                        continue
+                    if any(z is st for z in stmt.walk()):
+                        break
+                    # declared (with initialiser) or assigned unconditionally at the top level of the loop body
+                    for z in ([stmt] if stmt.k in ("vardecl", "asg") else [k for k in stmt.kids if k is not None and k.k in ("vardecl", "asg")] if stmt.k in ("declstmt", "decl") else []):
+                        if z.k == "vardecl" and z.name == v.name and z.kids:
+                            fresh = True
+                        if z.k == "asg" and z.op == "=" and z.kids[0].k == "ref" and z.kids[0].name == v.name:
+                            fresh = True
+                if fresh:
+                    chk.ok(rule, "unmarshal_one_fiber: `%s` stored into the frame header is set afresh in each iteration" % v.name)
+                else:
+                    chk.violation(rule, "marsh.c", fn.name, "stale:%s" % v.name, st.loc,
+                                  "`%s` stores `%s`, which is not initialised or unconditionally assigned at the top of the frame loop's body: "
+                                  "when this frame does not set it, the value left over from the previously rebuilt frame goes into the header" % (
+                                      st.text()[:40], v.name))
+    chk.floor(rule, 4, n)
